@@ -5,9 +5,8 @@ import Minimq.Generated
 -/
 namespace Minimq
 
-/-- `Varint::encoded_len`. -/
-def varintLen (n : Nat) : Nat :=
-  if n ≤ 0x7F then 1 else if n ≤ 0x3FFF then 2 else if n ≤ 0x1FFFFF then 3 else 4
+/-- `Varint::encoded_len`: regenerated from the source (`Gen.varintLen`). -/
+def varintLen (n : Nat) : Nat := Gen.varintLen n
 
 /-- `write_mqtt_u32_varint` for `n ≤ MQTT_VARINT_MAX` (the caller checks the bound). -/
 def encodeVarint (n : Nat) : Bytes :=
